@@ -1234,3 +1234,37 @@ M("d15b", "fire", ["C02", "C09"], "fresh Images() only switches to the current v
 ''', '''        if getattr(self, "_strict", False):
             self.header.set_current_version()
 '''))
+
+# ---- guards against the relaxations made for the evolution corpus (each relaxation has a mutant just across its border) ----
+M("x01", "fire", ["C06", "C07"], "validator returns early for a float mtime instead of refusing it",
+  (IM, '''    def _validate_mtime(self):
+        self._assert_type("mtime", list(six.integer_types))''', '''    def _validate_mtime(self):
+        if isinstance(self.mtime, float):
+            return
+        self._assert_type("mtime", list(six.integer_types))'''))
+M("x02", "neutral", [], "validator refuses a float mtime with its own message before the generic type check",
+  (IM, '''    def _validate_mtime(self):
+        self._assert_type("mtime", list(six.integer_types))''', '''    def _validate_mtime(self):
+        if isinstance(self.mtime, float):
+            raise TypeError("Image: mtime must be an integer number of seconds, got a float: %r" % self.mtime)
+        self._assert_type("mtime", list(six.integer_types))'''))
+M("x03", "fire", ["C09"], "collision scan skips images with the same path (not the same object)",
+  (IM, '''                        if identify_image(curimg) == identify_image(image) and curimg.checksums != image.checksums:''',
+   '''                        if curimg.path == image.path:
+                            continue
+                        if identify_image(curimg) == identify_image(image) and curimg.checksums != image.checksums:'''))
+M("x04", "fire", ["C04"], "tree platforms read with strip() although nothing refuses padded names",
+  (TI, '''        self.platforms = set([i for i in parser.get(section, "platforms").split(",") if i])''',
+   '''        self.platforms = set(i.strip() for i in parser.get(section, "platforms").split(",") if i.strip())'''))
+M("x05", "fire", ["C12"], "source package key canonicalised from the wrong argument",
+  (RP, '''            srpm_nevra, _ = self._check_nevra(srpm_nevra)''', '''            srpm_nevra, _ = self._check_nevra(nevra)'''))
+M("x06", "fire", ["C20"], "_file_exists treats every string as a URL when it contains a colon",
+  (CO, '''    if path.startswith(("http://", "https://", "ftp://")):''', '''    if path.startswith(("http://", "https://", "ftp://")) or ":" in path:'''))
+M("x07", "fire", ["C07"], "TreeInfo.load override that skips deserialize for files without a header",
+  (TI, '''    def dump(self, f, main_variant=None):''', '''    def load(self, f):
+        with productmd.common.open_file_obj(f) as fo:
+            parser = self.parse_file(fo)
+        if parser.has_section("header"):
+            self.deserialize(parser)
+
+    def dump(self, f, main_variant=None):'''))
